@@ -116,9 +116,13 @@ def sslopt_arg(s):
     s = s or {}
     chk = s.get("check_hostname")
     ctx = s.get("context")
-    return ":".join([CERT[s.get("cert_reqs")], "~" if chk is None else str(int(bool(chk))),
-                     hopt(s.get("ca_certs")), hopt(s.get("ca_cert_path")), hopt(s.get("server_hostname")),
-                     "~" if ctx is None else str(ctx.rec_user_id)])
+    parts = [CERT[s.get("cert_reqs")], "~" if chk is None else str(int(bool(chk))),
+             hopt(s.get("ca_certs")), hopt(s.get("ca_cert_path")), hopt(s.get("server_hostname")),
+             "~" if ctx is None else str(ctx.rec_user_id)]
+    if "ssl_version" in s:
+        # which protocol constant the context is made for: anything but PROTOCOL_TLS_CLIENT starts with verification off
+        parts.append(str(int(s["ssl_version"] != ssl.PROTOCOL_TLS_CLIENT)))
+    return ":".join(parts)
 
 
 def tlsenv_arg(env, isfile, isdir):
